@@ -243,6 +243,12 @@ def find_func(tree, name, cls=None):
     raise TranslateError(f"function {name} not found")
 
 
+def _kind_ctx():
+    c = Ctx()
+    c.kind_of = True          # `infer_kind(x)` used as a class (after the None case has returned)
+    return c
+
+
 def translate_typing(src):
     """-> list of Lean definition strings (may raise TranslateError)"""
     tree = ast.parse(src)
@@ -265,7 +271,7 @@ def translate_typing(src):
     f = find_func(tree, "validate_scalar")
     # validate_scalar returns the (possibly coerced) value or raises TypeError: translate to "accepts?"
     out.append("/-- translated from `validate_scalar`: `true` = returns, `false` = raises TypeError -/\n"
-               "def validatesT (value : Tag) (dtype : DType) : Bool :=\n" + block_accepts(f.body, Ctx()))
+               "def validatesT (value : Tag) (dtype : DType) : Bool :=\n" + block_accepts(f.body, _kind_ctx()))
     out.append(translate_infer_dtype(find_func(tree, "infer_dtype")))
     return out
 
